@@ -75,7 +75,10 @@ impl Job {
             engine: self.engine,
             seed: self.seed.wrapping_mul(0x9E37_79B9).wrapping_add(case),
             strategy,
-            spurious_den: if case % 3 == 0 { 0 } else { 4 },
+            // every sixteenth case is a "CAS storm": (almost) every weak compare-exchange of a thread fails
+            // spuriously, dozens of times in a row - legal for the weak form, and it crosses retry limits
+            spurious_den: if case % 16 == 5 { 1 } else if case % 3 == 0 { 0 } else { 4 },
+            spurious_cap: if case % 16 == 5 { 40 } else { 2 },
             step_budget: 200_000,
             quiet_limit: 10_000,
             keep_trace,
